@@ -153,7 +153,7 @@ class C03(SMSpec):
     def reach_required(self, tier):
         return ["sig-restart", "sig-param-tm", "sig-param-state_tm", "sig-param-initial_call", "engagement-start",
                 "requested-state-runs", "untimed-continues", "timed-expired", "restart", "nested-call",
-                "default-consecutive", "default-fallback"]
+                "default-consecutive", "default-fallback", "forced-engage", "forced-engage-into-running-state"]
 
     def path_fn(self, c, job):
         if job["kind"] == "sig":
@@ -161,6 +161,7 @@ class C03(SMSpec):
         H = smc.run_history(c, job)
         cl.timing_clauses(c, H, "C03")
         cl.clauses_c03_default(c, H)
+        cl.clauses_forced_engage(c, H, "C03")
 
     def twin(self, tier):
         def tfn(c, job):
